@@ -217,6 +217,25 @@ pub fn run(ctx: &mut Ctx) {
             }
         }
     }
+    // lines of exactly 1023 / 1024 / 1025 bytes (with CR LF) at several stream offsets, read whole and with
+    // the read boundary before the CR, between CR and LF, and after the LF: "within the line limit" is
+    // a property of the bytes, not of where a read happened to end
+    if ctx.shard == 1 % ctx.nshards {
+        for kind in 0..2usize {
+            for len in [1022usize, 1023, 1024, 1025] {
+                for off in [0usize, 1, 19, 100, 1000, 1023, 1024, 1025, 2047, 2048] {
+                    if let Some((s, start)) = crate::props::c04::line_stream(kind, len, off) {
+                        let end = start + len;
+                        for cuts in [vec![], vec![end - 2], vec![end - 1], vec![end], vec![end - 2, end - 1], vec![start.max(1), end - 1]] {
+                            let cuts: Vec<usize> = cuts.into_iter().filter(|c| *c > 0 && *c < s.len()).collect();
+                            judge(ctx, &s, 51200, &cuts, "line at the length limit", "C02");
+                            ctx.rep.count("boundary_lines");
+                        }
+                    }
+                }
+            }
+        }
+    }
     let n_base = ctx.budget(20000, 600000);
     for i in 0..n_base {
         if !ctx.mine(i) {
